@@ -1,5 +1,6 @@
 import Dagrt.Proofs.FuseProofs
 import Dagrt.Proofs.RenameProofs
+import Dagrt.Proofs.StmtProofs
 /-!
 # C16 — fusing two methods runs both on shared persistent state without interference
 
@@ -187,6 +188,63 @@ theorem fused_second_method_persistent_results (F : Funs) (ρ : Name → Name) (
     runList F (B.map (renameStmt ρ)) σ1 x = runList F B (fun y => σ1 (ρ y)) x := by
   have := fused_second_method_runs_as_alone F ρ hinj hF hexec B σ1 x
   rwa [hx] at this
+
+/-! ### both halves: the fused method, first method's statements then the renamed second method's -/
+
+theorem runList_append (F : Funs) (l₁ l₂ : List Stmt) (σ : Store) :
+    runList F (l₁ ++ l₂) σ = runList F l₂ (runList F l₁ σ) := by
+  simp [runList, List.foldl_append]
+
+/-- a variable no statement of a list declares as written keeps its value (C08's frame, over lists) -/
+theorem runList_frame (F : Funs) : ∀ (l : List Stmt) (σ : Store) (x : Name), (∀ s ∈ l, x ∉ effW s) →
+    runList F l σ x = σ x
+  | [], _, _, _ => rfl
+  | s :: l, σ, x, h => by
+    simp only [runList, List.foldl_cons]
+    have h1 := runList_frame F l (exec F s σ) x (fun s' hs' => h s' (List.mem_cons_of_mem _ hs'))
+    simp only [runList] at h1
+    rw [h1]
+    exact (execI_spec F s).2.2.1 σ x (h s List.mem_cons_self)
+
+/-- the result of a statement list on a set of names that contains everything it declares depends on
+    the store on that set only -/
+theorem runList_agree (F : Funs) (S : List Name) : ∀ (l : List Stmt) (σ σ' : Store),
+    (∀ s ∈ l, (∀ x ∈ effR s, x ∈ S) ∧ (∀ x ∈ effW s, x ∈ S)) → AgreeOn S σ σ' →
+    AgreeOn S (runList F l σ) (runList F l σ')
+  | [], _, _, _, h => h
+  | s :: l, σ, σ', hS, h => by
+    simp only [runList, List.foldl_cons]
+    have hs := hS s List.mem_cons_self
+    exact runList_agree F S l _ _ (fun s' hs' => hS s' (List.mem_cons_of_mem _ hs'))
+      ((execI_spec F s).2.2.2 S σ σ' hs.1 hs.2 h)
+
+/-- **First method in the fused run**: a variable that no renamed statement of the second method
+    declares as written ends with the value the first method alone gives it -/
+theorem fused_first_method_results (F : Funs) (ρ : Name → Name) (A B : List Stmt) (σ0 : Store) (x : Name)
+    (hx : ∀ s ∈ B.map (renameStmt ρ), x ∉ effW s) :
+    runList F (A ++ B.map (renameStmt ρ)) σ0 x = runList F A σ0 x := by
+  rw [runList_append]
+  exact runList_frame F _ _ x hx
+
+/-- **Second method in the fused run, as alone from the same start**: if no name the second method
+    declares (read or written) is written by the first method - the two write disjoint persistent
+    variables, the second does not read what the first writes, temporaries are disjoint - then every
+    name `x` the second method declares ends, under its new name, with the value the second method
+    ALONE gives it when started from the same initial store (read through the renaming) -/
+theorem fused_second_method_results (F : Funs) (ρ : Name → Name) (hinj : ∀ x y, ρ x = ρ y → x = y)
+    (hF : ∀ f vs ks, F (ρ f) vs ks = F f vs ks) (hexec : ρ EXEC = EXEC) (A B : List Stmt) (σ0 : Store)
+    (S : List Name) (hS : ∀ s ∈ B, (∀ x ∈ effR s, x ∈ S) ∧ (∀ x ∈ effW s, x ∈ S))
+    (hdisj : ∀ x ∈ S, ∀ s ∈ A, ρ x ∉ effW s) :
+    ∀ x ∈ S, runList F (A ++ B.map (renameStmt ρ)) σ0 (ρ x) = runList F B (fun y => σ0 (ρ y)) x := by
+  intro x hx
+  rw [runList_append]
+  -- through the renaming, the store the first method leaves agrees with the initial store on `S`
+  have hagree : AgreeOn S (fun y => runList F A σ0 (ρ y)) (fun y => σ0 (ρ y)) := by
+    intro y hy
+    exact runList_frame F A σ0 (ρ y) (hdisj y hy)
+  have h1 := fused_second_method_runs_as_alone F ρ hinj hF hexec B (runList F A σ0) x
+  rw [h1]
+  exact runList_agree F S B _ _ hS hagree x hx
 
 /-! non-vacuity: both methods use the temporary `a`, the flag `<cond>`, the id `p_0`, and read `<t>` -/
 def exA : List FStmt := [⟨"p_0".toList, [], ⟨.const (.bool true), .assign "a" none (.var "<t>") []⟩⟩]
